@@ -193,7 +193,10 @@ func (w *world) nextStep(rng *rand.Rand) *Step {
 		}
 		return &Step{Kind: "setext", B: rng.Intn(2) == 0}
 	case x < 97:
-		if w.ahtDirty {
+		if w.cfg.Prealloc && w.discards > 0 {
+			// preallocated chunk files: a Discard that removed something cuts the tx log, multiapp removes
+			// the chunk files behind the cut even when preallocated but keeps the bytes inside the current
+			// chunk: what a reopen finds there depends on chunk boundaries, which the model does not contain
 			return &Step{Kind: "sync"}
 		}
 		return &Step{Kind: "reopen"}
@@ -482,12 +485,16 @@ func staleClogTail(r *vk.Run, prealloc bool) error {
 	w.execSafe(&Step{Kind: "reopen"})
 	w.drainPending(true)
 	after := uint64(len(w.seen))
-	broken := ""
+	symptom := ""
 	var other []string
 	for _, f := range w.collected {
 		switch {
 		case strings.HasPrefix(f, "prevalh-broken"):
-			broken = f
+			symptom = fmt.Sprintf("/Open the committed id is %d (was %d) and the chain is broken: %s", after, before, f)
+		case strings.HasPrefix(f, "reopen-failed"):
+			if symptom == "" {
+				symptom = " the store cannot be opened: " + f
+			}
 		case strings.HasPrefix(f, "reopen-committed-more"), strings.HasPrefix(f, "blroot-mismatch"),
 			strings.HasPrefix(f, "ack-mismatch[after-discard]"):
 			// consequences of the same stale entries / of the known waiter defect
@@ -496,8 +503,8 @@ func staleClogTail(r *vk.Run, prealloc bool) error {
 		}
 	}
 	w.collect = false
-	if broken != "" {
-		w.r.Finding(fmt.Sprintf("%s: after a clean Close/Open the committed id is %d (was %d) and the chain is broken: %s [%s]", name, after, before, broken, w.tag))
+	if symptom != "" {
+		w.r.Finding(fmt.Sprintf("%s: after a clean Close%s [%s]", name, symptom, w.tag))
 	}
 	for _, f := range other {
 		w.r.Finding(f + " [" + w.tag + "]")
